@@ -23,7 +23,8 @@ import xeofs as xe
 
 PROP = "C11"
 TAGS = {"C11"}
-QUICK = [("EOF", True, False, True), ("EOF", False, True, False), ("CPCCA", True, False, True), ("EOFstd", True, False, True)]
+QUICK = [("EOF", True, False, True), ("EOF", False, True, False), ("CPCCA", True, False, True), ("EOFstd", True, False, True),
+         ("EOF5r4", True, False, True)]
 THOROUGH = QUICK + [("MCA", True, False, True), ("ComplexEOF", True, False, True), ("HilbertEOF", True, False, True), ("CPCCA", False, True, False),
                     ("ComplexMCA", True, False, True), ("EOF", True, True, True)]
 DEVS = [("CapSingle", "RotTransformUnsorted")]
